@@ -1,0 +1,6 @@
+//go:build !verif
+
+package minter
+
+// verifStop is a no-op unless the node is built with the `verif` tag.
+func verifStop(_ *Blockchain) bool { return false }
